@@ -431,6 +431,34 @@ def sess_compare(expected, bound: Fraction):
     return cmp
 
 
+def moe_compare(expected, bound: Fraction):
+    """`expected`: one entry per operation: None after an assignment of `hard`, (p, J or None) after a query
+    (None: `predict_jacobian` raised NotImplementedError)."""
+
+    def cmp(ans: str) -> str | None:
+        toks = ans.split("|")
+        if len(toks) != len(expected):
+            return f"model answered {ans[:200]!r}"
+        for k, (tok, exp) in enumerate(zip(toks, expected)):
+            if exp is None:
+                if tok != "set":
+                    return f"operation {k}: model answered {tok[:100]!r} after an assignment"
+                continue
+            p, J = exp
+            parts = dict(t.split("=", 1) for t in tok.split("~") if "=" in t)
+            if "p" not in parts or "J" not in parts:
+                return f"operation {k}: model answered {tok[:100]!r}"
+            if not frac_close(pvec(parts["p"]), p, bound):
+                return f"operation {k}: predict: model {[float(v) for v in pvec(parts['p'])]} vs code {np.asarray(p).tolist()}"
+            if (parts["J"] == "_") != (J is None):
+                return f"operation {k}: the model {'offers no' if parts['J'] == '_' else 'offers a'} Jacobian with the value of `hard` in force, the code {'raised NotImplementedError' if J is None else 'returned one'}"
+            if J is not None and not frac_close(flat(pmat(parts["J"])), np.asarray(J).ravel(), bound):
+                return f"operation {k}: predict_jacobian: model {[[float(v) for v in r] for r in pmat(parts['J'])]} vs code {np.asarray(J).tolist()}"
+        return None
+
+    return cmp
+
+
 def make_compare(spec: tuple):
     kind, *args = spec
     return {
@@ -440,4 +468,5 @@ def make_compare(spec: tuple):
         "tr": tr_compare,
         "sur": sur_compare,
         "sess": sess_compare,
+        "moe": moe_compare,
     }[kind](*args)
